@@ -26,6 +26,12 @@ var permittedRetainers = map[string]string{
 	"(*fixtures/fx.GoodBOptOut).keep":                                               "fixture: documented opt-out",
 }
 
+// parseCacheResults: permitted retainers whose result refers to the buffer passed in.
+var parseCacheResults = map[string]bool{
+	"(github.com/pion/interceptor.Attributes).GetRTPHeader":   true,
+	"(github.com/pion/interceptor.Attributes).GetRTCPPackets": true,
+}
+
 // externalSinks: library calls that retain an argument (index counts the receiver as 0).
 var externalSinks = map[string]int{
 	"(*sync.Pool).Put": 1, "(*container/list.List).PushBack": 1, "(*container/list.List).PushFront": 1,
@@ -45,6 +51,81 @@ type taintCtx struct {
 	p     *Prog
 	cache map[string]*taintSummary
 	stack map[string]bool
+	read  map[*types.Var]bool // struct fields that are read (or whose address is used for anything but a store) somewhere
+}
+
+// deadField: no function of the repository ever loads the field or lets its address escape.
+func (tc *taintCtx) deadField(fv *types.Var) bool {
+	if fv == nil {
+		return false
+	}
+	if tc.read == nil {
+		tc.read = map[*types.Var]bool{}
+		for _, fn := range tc.p.Funcs {
+			instrsOf(fn, func(in ssa.Instruction) {
+				switch x := in.(type) {
+				case *ssa.Field:
+					if st, ok := x.X.Type().Underlying().(*types.Struct); ok {
+						tc.read[st.Field(x.Field)] = true
+					}
+				case *ssa.FieldAddr:
+					if x.Referrers() == nil {
+						return
+					}
+					for _, r := range *x.Referrers() {
+						if st, ok := r.(*ssa.Store); ok && st.Addr == ssa.Value(x) {
+							continue
+						}
+						if _, ok := r.(*ssa.DebugRef); ok {
+							continue
+						}
+						if f := fieldOfAddr(x); f != nil {
+							tc.read[f] = true
+						}
+					}
+				case *ssa.UnOp:
+					// a load of the whole struct reads all its fields
+					if x.Op == token.MUL {
+						if st, ok := x.Type().Underlying().(*types.Struct); ok && x.Referrers() != nil {
+							// copying the struct around (send, store, argument of a repository function, return) inspects
+							// nothing; boxing it, comparing it or handing it to code outside the repository may
+							whole := false
+							for _, r := range *x.Referrers() {
+								switch r := r.(type) {
+								case *ssa.MakeInterface, *ssa.BinOp:
+									whole = true
+								case ssa.CallInstruction:
+									if sc := r.Common().StaticCallee(); sc == nil || !tc.p.InUniverse(sc) {
+										whole = true
+									}
+								}
+							}
+							if whole {
+								for i := 0; i < st.NumFields(); i++ {
+									tc.read[st.Field(i)] = true
+								}
+							}
+						}
+					}
+				}
+			})
+		}
+	}
+	return !tc.read[fv]
+}
+
+// rtcpCopyingType: RTCP packet types of pion/rtcp v1.2.17 whose Unmarshal copies everything out of its input (typed
+// fields, freshly built slices, strings): an object of such a type obtained from the parse cache does not refer to the
+// read buffer. Raw, application-defined, sender/receiver reports (profile extensions) and extended reports do.
+func rtcpCopyingType(t types.Type) bool {
+	switch typeKey(deref(t)) {
+	case "github.com/pion/rtcp.TransportLayerNack", "github.com/pion/rtcp.TransportLayerCC", "github.com/pion/rtcp.PictureLossIndication",
+		"github.com/pion/rtcp.FullIntraRequest", "github.com/pion/rtcp.CCFeedbackReport", "github.com/pion/rtcp.Goodbye",
+		"github.com/pion/rtcp.SourceDescription", "github.com/pion/rtcp.RapidResynchronizationRequest",
+		"github.com/pion/rtcp.ReceiverEstimatedMaximumBitrate", "github.com/pion/rtcp.SliceLossIndication":
+		return true
+	}
+	return false
 }
 
 func refish(t types.Type) bool { return isRefType(t) || containsRefs(t) || isIface(t) }
@@ -182,7 +263,7 @@ func (tc *taintCtx) analyse(fn *ssa.Function, params []int, freeTainted map[*ssa
 					mark(x)
 				}
 			case *ssa.TypeAssert:
-				if tainted[x.X] {
+				if tainted[x.X] && !rtcpCopyingType(x.AssertedType) {
 					mark(x)
 				}
 			case *ssa.Extract:
@@ -200,6 +281,9 @@ func (tc *taintCtx) analyse(fn *ssa.Function, params []int, freeTainted map[*ssa
 					return
 				}
 				if r := localRoot(x.Addr); r != nil {
+					if fa, ok := x.Addr.(*ssa.FieldAddr); ok && tc.deadField(fieldOfAddr(fa)) {
+						return // parked in a field nothing ever reads: kept, but without effect on anything emitted or recorded
+					}
 					markCarrier(r)
 					return
 				}
@@ -306,6 +390,12 @@ func (tc *taintCtx) call(fn *ssa.Function, ci ssa.CallInstruction, tainted map[s
 	}
 	name := calleeName(cc)
 	if _, ok := permittedRetainers[name]; ok {
+		// the parse caches hand back objects that point into the bytes they were given (extension payloads of a
+		// header; raw, application-defined and profile-extension parts of RTCP packets): keeping the attributes map is
+		// the contract, but what comes out of it is still the caller's memory
+		if parseCacheResults[name] && val != nil {
+			mark(val)
+		}
 		return
 	}
 	if cc.IsInvoke() && isChainIface(p, cc.Value.Type()) {
